@@ -10,7 +10,7 @@ from ..worlds import ImplWorld, RefWorld, facts_impl, facts_ref
 
 ID = 'C13'
 LEVEL = 'model_checking'
-RULE = ('(lives) the same variable objects asserted again after clear() or into a second engine, after 0..2 other assertions in each life, in 5 shapes: two simultaneous uses of the second fact are independent; (v) values of every kind: a variable bound to each of 13 values (atoms, compounds, lists, Python constants incl. 0, the empty string, None, (), 0.0) and to compounds NAMED like conventional variable placeholders / internal markers and like every short string literal of the engine source reaches assert_fact / assertz / asserta directly, inside a structure, through an alias chain, as list element, as list tail, twice, next to unbound variables; after the binding is undone the fact holds exactly that value. (s) every ordered selection of <= K of the binding operations {X = f(Y), Y = a, X = Y, Y = g(Z), Z = b} with one '
+RULE = ('(lives) the same variable objects asserted again after clear() or into a second engine, after 0..2 other assertions in each life, in 5 shapes: two simultaneous uses of the second fact are independent; (v) values of every kind: a variable bound to each of 15 values (atoms, compounds incl. zero-argument ones, lists, Python constants incl. 0, the empty string, None, (), 0.0) and to compounds NAMED like conventional variable placeholders / internal markers and like every short string literal of the engine source reaches assert_fact / assertz / asserta directly, inside a structure, through an alias chain, as list element, as list tail, twice, next to unbound variables, behind a sibling argument, between list elements; after the binding is undone the fact holds exactly that value. (s) every ordered selection of <= K of the binding operations {X = f(Y), Y = a, X = Y, Y = g(Z), Z = b} with one '
         'assertz of p(X) / p(f(Y)) / p(_) / p(g(X,Y)) / p(g(Y,Y)) (one variable twice) inserted at every position (variables bound before, after, through '
         'a chain, inside a structure), the asserting clause continuing with true / a use p(W) of the fact / fail, run '
         'to exhaustion or abandoned after its first answer; followed by every later use alone, and by every pair (one of 4 uses, then one of 4 probing uses), from {p(a), '
@@ -286,7 +286,7 @@ NSH = 64
 # constants incl. the ones that are false in a boolean context - and every way the variable reaches
 # the fact (directly, inside a structure, through an alias chain, as list element / list tail)
 def value_menu():
-    out = [A('a'), A('[]'), F('f', A('b')), F('.', A('a'), A('[]')), C(0), C(1), C(-1), C(''), C('str'), C(None), C(()), C(0.0), C(2.5)]
+    out = [A('a'), A('[]'), F('f', A('b')), F('foo'), F('f', F('foo'), A('b')), F('.', A('a'), A('[]')), C(0), C(1), C(-1), C(''), C('str'), C(None), C(()), C(0.0), C(2.5)]
     # compounds whose NAME could mean something to an implementation (a placeholder for variables, an
     # internal marker): conventional ones, and every short string literal of the engine's own source
     for nm in MARKER_NAMES + names_in_engine_source():
@@ -319,7 +319,7 @@ def names_in_engine_source():
     return out
 
 
-SHAPES = ['direct', 'in-structure', 'alias-chain', 'list-element', 'list-tail', 'twice', 'next-to-a-variable']
+SHAPES = ['direct', 'in-structure', 'alias-chain', 'list-element', 'list-tail', 'twice', 'next-to-a-variable', 'after-a-sibling', 'between-elements']
 
 
 def check_value(val, shape, via):
@@ -340,7 +340,8 @@ def check_value(val, shape, via):
     gens.append(g)
     arg = {'direct': x, 'alias-chain': x, 'in-structure': yp.functor('h', [x, yp.atom('k')]), 'list-element': yp.listpair(x, yp.ATOM_NIL),
            'list-tail': yp.listpair(yp.atom('k'), x), 'twice': yp.functor('h', [x, x]),
-           'next-to-a-variable': yp.functor('h', [x, yp.variable(), yp.functor('g', [yp.variable()])])}[shape]
+           'next-to-a-variable': yp.functor('h', [x, yp.variable(), yp.functor('g', [yp.variable()])]),
+           'after-a-sibling': yp.functor('h', [yp.atom('k'), x]), 'between-elements': yp.makelist([yp.atom('k'), x, yp.atom('k')])}[shape]
     if via == 'assert_fact':
         yp.assert_fact(yp.atom('val'), [arg])
     else:
@@ -356,14 +357,17 @@ def check_value(val, shape, via):
     want_inner = (('c', repr(val[1])) if isinstance(val[1], (list, tuple, dict, set)) else ('c', val[1])) if val[0] == 'c' else canon([val])[0]
     want = {'direct': want_inner, 'alias-chain': want_inner, 'in-structure': ('f', 'h', (want_inner, ('a', 'k'))), 'list-element': ('f', '.', (want_inner, ('a', '[]'))),
             'list-tail': ('f', '.', (('a', 'k'), want_inner)), 'twice': ('f', 'h', (want_inner, want_inner)),
-            'next-to-a-variable': ('f', 'h', (want_inner, ('v', 0), ('f', 'g', (('v', 1),))))}[shape]
+            'next-to-a-variable': ('f', 'h', (want_inner, ('v', 0), ('f', 'g', (('v', 1),)))),
+            'after-a-sibling': ('f', 'h', (('a', 'k'), want_inner)),
+            'between-elements': ('f', '.', (('a', 'k'), ('f', '.', (want_inner, ('f', '.', (('a', 'k'), ('a', '[]')))))))}[shape]
     if rows != [(want,)]:
         return ('asserted-value-lost', 'a variable bound to %r reaches %s as %s; after the binding is undone the fact reads %r, expected %r' % (val[1] if val[0] == 'c' else show_term(val), via, shape, rows, [(want,)]))
     # and it matches exactly that value: a different constant does not match
     other = yp.atom('something else')
     probe = {'direct': other, 'alias-chain': other, 'in-structure': yp.functor('h', [other, yp.atom('k')]), 'list-element': yp.listpair(other, yp.ATOM_NIL),
              'list-tail': yp.listpair(yp.atom('k'), other), 'twice': yp.functor('h', [other, other]),
-             'next-to-a-variable': yp.functor('h', [other, yp.variable(), yp.variable()])}[shape]
+             'next-to-a-variable': yp.functor('h', [other, yp.variable(), yp.variable()]),
+             'after-a-sibling': yp.functor('h', [yp.atom('k'), other]), 'between-elements': yp.makelist([yp.atom('k'), other, yp.atom('k')])}[shape]
     if len(list(yp.query('val', [probe]))) != 0:
         return ('asserted-value-became-variable', 'a variable bound to %r reaches %s as %s; the stored fact also matches the atom \'something else\' in that place' % (val[1] if val[0] == 'c' else show_term(val), via, shape))
     return None
